@@ -19,6 +19,7 @@ MCInit == Init /\ hist = <<>>
 MCNext == \/ Len(hist) < Depth /\ ApiStep /\ hist' = Append(hist, HistOp)
           \/ (FsStep \/ WriteEnd) /\ UNCHANGED hist
 MCSpec == MCInit /\ [][MCNext]_<<vars, hist>>
+MCLive == MCSpec /\ WF_<<vars, hist>>((FsStep \/ WriteEnd) /\ UNCHANGED hist)
 Emit == (Len(hist) = Depth /\ call = Idle) => PrintT(ToJson(hist))
 View == <<lastw, files, call, fslog, last, Len(hist)>>
 =============================================================================
